@@ -524,6 +524,9 @@ def _run(ctx, torch, soft_one_hot_linspace, soft_unit_step, normalize2mom, momen
         "tanh": torch.tanh, "relu": torch.relu, "silu": torch.nn.functional.silu, "sigmoid": torch.sigmoid,
         "abs": torch.abs, "identity": lambda x: x, "sin": torch.sin, "square": lambda x: x * x,
         "neither_odd_nor_even": lambda x: torch.exp(0.5 * x) - 0.3 * x,
+        "hardtanh": torch.nn.functional.hardtanh, "clamp_1p5": lambda x: x.clamp(-1.5, 1.5), "clamp_3": lambda x: x.clamp(-3.0, 3.0),
+        "relu6": torch.nn.functional.relu6, "leaky_relu": torch.nn.functional.leaky_relu, "softsign": torch.nn.functional.softsign,
+        "identity_then_steeper": lambda x: torch.where(x.abs() < 2, x, 2 * x),
     }
     zq = torch.linspace(-14.0, 14.0, 560001, dtype=f64)
     wq = torch.exp(-0.5 * zq * zq) / math.sqrt(2 * math.pi)
